@@ -388,6 +388,7 @@ import renameeng
 import fronteng
 import bodyeng
 import seqeng
+import patheng
 eng_determinism = deteng.eng_determinism
 eng_copyprobe = probeeng.eng_copyprobe
 eng_valuetable = probeeng.eng_valuetable
@@ -403,6 +404,7 @@ eng_rename = renameeng.eng_rename
 eng_front = fronteng.eng_front
 eng_body = bodyeng.eng_body
 eng_seq = seqeng.eng_seq
+eng_paths = patheng.eng_paths
 
 WF_NOTE = "the well-formedness of every accepted provider map (wfb) is proved (C05_accepted_maps_well_formed); the correspondence run still evaluates it per accepted case as a redundant check"
 SYNTH_NOTE = "explicit loop bounds of the model: acyc_fuel and solve_fuel are proved sufficient for every accepted map (C07_linear_bound, C07_planner_linear_bound); on rejected maps the planner is not run by Wire"
@@ -426,7 +428,7 @@ PROPS = {
     "C11": {"theorems": ["C11_bind_accepts", "C11_colocated", "C11_shared_instance", "C02_wiring_accepted"], "engines": [eng_synth, eng_prog, eng_forms, eng_front], "assumptions": [SYNTH_NOTE, "Go's method-set rule (types.Implements) is go/types' and is not modelled"]},
     "C12": {"theorems": ["C12_fieldsof_accepts", "C12_fieldsof_pointer_iff", "C12_struct_needs_named_struct", "C12_check_field_sound", "C12_star_selects_unprevented", "C12_struct_provider_outputs"], "engines": [eng_prog, eng_forms, eng_layouts, eng_front],
             "assumptions": ["field names are ASCII; strconv.Quote and strings.EqualFold are modelled on ASCII identifiers", "FieldsOf name resolution shares checkField; its front end is exercised through the binary only"]},
-    "C13": {"theorems": ["C13_ifacevalue_accepts", "C13_whitelist_sound", "C13_whitelist_complete"], "engines": [eng_valuetable, eng_forms, eng_copyprobe, eng_prog, eng_layouts, eng_multi, eng_front],
+    "C13": {"theorems": ["C13_ifacevalue_accepts", "C13_whitelist_sound", "C13_whitelist_complete", "C13_internal_package_rule"], "engines": [eng_valuetable, eng_forms, eng_copyprobe, eng_prog, eng_layouts, eng_multi, eng_front, eng_paths],
             "assumptions": ["expression trees are abstracted to the node kinds processValue distinguishes; the mapping from Go syntax to kinds is the table's (hand-written per form)",
                             "evaluation once at package initialisation is Go's semantics of package-level variables, not modelled"]},
     "C14": {"theorems": ["C14_names_distinct", "C14_file_names_distinct", "C14_emitted_pass_names_fresh", "C14_invented_names_fresh", "C14_disambiguate_fresh", "C16_collision_order_independent"], "engines": [eng_prog, eng_multi, eng_layouts, eng_rename],
@@ -434,7 +436,7 @@ PROPS = {
     "C15": {"level_text": "Machine-checked proof in Coq 8.16.1 over an executable model tied to the code by a per-run correspondence; the copy is proved to be the identity for any complete table and the table is regenerated from copyAST each run; the renaming pass is modelled (Rename.v, tied by a hook that runs the real rewritePkgRefs) and proved never to capture; the qualification pass (package references) is exercised by the copy corpus and the layouts, not modelled (partial).", "theorems": ["C15_copy_identity", "C15_missing_field_is_lost", "C15_renaming_never_captures", "C15_layout_is_sections", "C15_copied_iff", "C15_copied_once", "C15_copied_in_source_order"], "engines": [eng_copyprobe, eng_copydecls, eng_rename, eng_seq],
             "assumptions": ["partial: the second (renaming) pass of rewritePkgRefs is modelled as a pass over the sequence of identifier occurrences (Rename.v, tied by the renameprobe hook); its first pass (package qualifiers) and Go's scoping of the copied declarations are exercised by the declaration corpus (structure + behaviour), not modelled",
                             "go/printer prints what copyAST returns; not modelled"]},
-    "C16": {"level_text": "Machine-checked proof in Coq 8.16.1 over an executable model tied to the code by a per-run correspondence; order-independence of every map-driven decision of the model is proved; loader behaviour across layouts is sampled by byte-comparing runs (partial).", "theorems": ["C16_collision_order_independent", "C16_import_block_order_independent", "C10_analysis_order_independent", "C10_phase_order_independent", "C07_cycles_detected"], "engines": [eng_determinism],
+    "C16": {"level_text": "Machine-checked proof in Coq 8.16.1 over an executable model tied to the code by a per-run correspondence; order-independence of every map-driven decision of the model is proved; loader behaviour across layouts is sampled by byte-comparing runs (partial).", "theorems": ["C16_collision_order_independent", "C16_import_block_order_independent", "C16_vendor_prefix_stripped", "C16_unvendored_path_is_clean", "C10_analysis_order_independent", "C10_phase_order_independent", "C07_cycles_detected"], "engines": [eng_determinism, eng_paths],
             "assumptions": ["partial: loader behaviour across layouts is the go tool's and go/packages' runtime behaviour; the model cannot exhibit it, the runs sample it",
                             "the import block is modelled as the sorted list of the allocated imports (Imports.v); the model's block is compared line by line, in order, with the generated file in every emitted-lines case of the prog engine (C01/C02/C14), and between runs here"]},
     "C17": {"level_text": "Machine-checked proof in Coq 8.16.1 over an executable model tied to the code by a per-run correspondence; the command logic is proved over an abstract file system; the OS write is modelled as whole-file replace and tied by tree hashes (partial).", "theorems": ["C17_gen_exit", "C17_gen_footprint", "C17_failed_package_untouched", "C17_failure_does_not_block_others", "C17_diff_readonly", "C17_diff_exit"],
@@ -448,5 +450,5 @@ PROPS = {
                             "proved parts: the modelled rules (funcOutput, field selection, cycle check) are total functions; zeroValue is total over the regenerated kind table"]},
 }
 
-HOOK_COMMITS = ["fc0854c", "b8ca607", "2f47b21"]
+HOOK_COMMITS = ["fc0854c", "b8ca607", "2f47b21", "272baf3"]
 NOT_YET = {}
